@@ -1799,6 +1799,15 @@ class Interp(object):
         if name == 'last':
             return Opt(l[-1]) if l else NONE
         if name == 'contains':
+            if isinstance(a[0], RInt):
+                v = a[0].v
+                for x in l:
+                    if isinstance(x, RInt):
+                        if x.v == v:
+                            return True
+                    elif self.values_equal(x, a[0]):
+                        return True
+                return False
             return any(self.values_equal(x, a[0]) for x in l)
         if name == 'join':
             return a[0].join(self.display(x) for x in l)
